@@ -53,15 +53,33 @@ def _mutators(ctx: Ctx) -> List[Func]:
     return out
 
 
-def _refusal_at(ctx: Ctx, f: Func, n: N, refuse=None) -> Optional[str]:
+def _refusal_at(ctx: Ctx, f: Func, n: N, refuse=None) -> Optional[Tuple[str, str]]:
+    """(stable key, explanation) of the refusal that can fire at n.  The key
+    names the *kind* of refusal (exception class / argument / refusing callee),
+    never local variable names, so that renaming a local does not move it."""
     si = stmt_index(ctx, f)
     rs = si.refusals_at(n)
     if not rs:
         return None
-    e = rs[0]
+    order = {"raise UniqueConstraintError": 0, "raise ValueError": 1}
+    e = sorted(rs, key=lambda x: (order.get(x.field, 5), len(x.chain)))[0]
     if e.chain:
-        return f"{e.field} at {e.origin}:{e.line} (`{e.text}`) reached via " + " -> ".join(e.chain)
-    return e.field
+        callee = []
+        for c in si.calls_at(n):
+            callee += [g.qualname for g, _ in ctx.env.callees(f, c)]
+        key = "call " + "/".join(sorted(set(callee))[:3]) + " may refuse"
+        return key, f"{e.field} at {e.origin}:{e.line} (`{e.text}`) reached via " + " -> ".join(e.chain)
+    a = n.ast
+    params = sorted(set(f.top.param_names()) - {f.self_name})
+    used = sorted({x.id for x in ast.walk(a) if isinstance(x, ast.Name)} & set(params)) if a is not None else []
+    if isinstance(a, ast.Assert):
+        return f"assert on argument {'/'.join(used)}", e.field
+    if isinstance(a, ast.Raise):
+        # distinguish several raises of one class by the parameters their guard mentions
+        p = ctx.model.parent_of(a)
+        g = sorted({x.id for x in ast.walk(p.test) if isinstance(x, ast.Name)} & set(params)) if isinstance(p, ast.If) else []
+        return f"{e.field}" + (f" on {'/'.join(g)}" if g else ""), e.field
+    return f"failing search for argument {'/'.join(used)}", e.field
 
 
 @rule("ORDER-VBM", ["C13"], floor=8, section="3.3")
@@ -80,7 +98,7 @@ def order_vbm(ctx: Ctx) -> List[Ob]:
                 return any(e.op in ("delitem",) and e.field == "_node_by_id" for e in _si.direct.get(n.id, []))
 
             W = [n for n in cfg.stmt_nodes() if si.writes(n) and not inverse(n)]
-            R: List[Tuple[N, str]] = []
+            R: List[Tuple[N, Tuple[str, str]]] = []
             for n in cfg.stmt_nodes():
                 why = _refusal_at(ctx, g, n, refuse)
                 if why:
@@ -88,7 +106,7 @@ def order_vbm(ctx: Ctx) -> List[Ob]:
             if not W or not R:
                 continue
 
-            for r, why in R:
+            for r, (rkey, why) in R:
                 witness = None
                 for w in W:
                     p = cfg.find_path(w, r, avoid=inverse, strict=True,
@@ -99,7 +117,7 @@ def order_vbm(ctx: Ctx) -> List[Ob]:
                         witness = (w, p)
                         break
                 found_any = True
-                key = f"refusal after write: {norm(r.ast) if r.ast is not None else r.kind}"
+                key = f"refusal after write: {rkey}"
                 if witness is None:
                     obs.append(ctx.ob("ORDER-VBM", ["C13"], g, key, r.ast, True))
                 else:
@@ -354,3 +372,52 @@ def acc_rebind(ctx: Ctx) -> List[Ob]:
 
 def _contains(outer: ast.AST, inner: ast.AST) -> bool:
     return any(x is inner for x in ast.walk(outer))
+
+
+# -------------------------------------------------------------- STALE-ALIAS
+@rule("STALE-ALIAS", ["C01", "C04"], floor=6, section="3.5")
+def stale_alias(ctx: Ctx) -> List[Ob]:
+    """a local alias of a child list is not used to change the list after a statement that may have replaced that list (`x._children = None` / `= [..]`): the change would go to a detached list"""
+    from ..cfg import _binds
+
+    obs: List[Ob] = []
+    env = ctx.env
+    for f in ctx.model.all_funcs():
+        sc = env.scope(f)
+        cfg = None
+        for name, bs in sc.bindings.items():
+            vals = [b for b in bs if b.kind == "val" and b.expr is not None and b.ctx is None]
+            al = [b for b in vals if any(fld == "_children" for _r, fld in env.fields(f, b.expr)) and not is_copy_expr(b.expr)]
+            if not al:
+                continue
+            cfg = cfg or ctx.cfg(f)
+            si = stmt_index(ctx, f)
+            Bn = [cfg.stmt_node_of(b.expr, ctx.model.parent_of) for b in al]
+            Bn = [n for n in Bn if n is not None]
+            Sn = [n for n in cfg.stmt_nodes() if any(e.op == "rebind" and e.field == "_children" for e in si.direct.get(n.id, [])) and not _binds(n, name)]
+            Un = []
+            for n in cfg.stmt_nodes():
+                for x in walk_node_exprs(n):
+                    if isinstance(x, ast.Call) and isinstance(x.func, ast.Attribute) and isinstance(x.func.value, ast.Name) and x.func.value.id == name \
+                            and x.func.attr in ("append", "insert", "extend", "pop", "remove", "sort", "reverse", "clear"):
+                        Un.append(n)
+            bad = None
+            for b in Bn:
+                for s_ in Sn:
+                    if cfg.find_path(b, s_, avoid=lambda n, nm=name: _binds(n, nm), strict=True) is None:
+                        continue
+                    for u in Un:
+                        p = cfg.find_path(s_, u, avoid=lambda n, nm=name: _binds(n, nm), strict=True)
+                        if p is not None:
+                            bad = (b, s_, u, p)
+                            break
+                    if bad:
+                        break
+                if bad:
+                    break
+            props = ["C01", "C04"]
+            obs.append(ctx.ob("STALE-ALIAS", props, f, f"alias `{name}` of a child list in {f.qualname}", al[0].expr, bad is None,
+                              "" if bad is None else f"`{name}` was taken at L{bad[0].lineno}, then `{norm(bad[1].ast)}` may replace that child list (None instead of []), "
+                              f"and `{norm(bad[2].ast)}` still changes the old list object: the node ends up in a detached list (counted, not reachable)",
+                              None if bad is None else describe_path(bad[3])))
+    return obs
